@@ -12,3 +12,7 @@ Proof. intros a. reflexivity. Qed.
 
 Lemma gen_key_ltb_eq : forall a b, gen_key_ltb a b = key_ltb a b.
 Proof. intros a b. reflexivity. Qed.
+
+Lemma gen_threshold_adj_eq : forall et age last_changed,
+  gen_threshold_adj et age last_changed = threshold_adj et age last_changed.
+Proof. intros et age last_changed. reflexivity. Qed.
